@@ -46,8 +46,8 @@ def names_within(msg_str, keys):
 
 
 def str_mod(I, fmt, arg):
-    """'template' % mapping (assumed): raises KeyError iff the template names a key the mapping lacks; otherwise
-    returns a str or raises TypeError/ValueError for a malformed conversion (which propagate)"""
+    """'template' % mapping (assumed): returns a str only if every named field is a key of the mapping; raises KeyError only for a
+    name the mapping lacks; may raise TypeError/ValueError for an unfit / malformed conversion at any point of the template"""
     ctx = I.ctx
     arg2 = ctx.from_val(arg) if isinstance(arg, SV) else arg
     if not isinstance(arg2, VDict):
@@ -62,7 +62,8 @@ def str_mod(I, fmt, arg):
     if d == 1:
         ctx.assume(z3.Not(ok))
         raise PyRaise(I.make_exception(ExternalRef("KeyError"), []))
-    ctx.assume(ok)
+    # a conversion that does not fit its value (TypeError) or a malformed specifier (ValueError) is reported where formatting reaches
+    # it - possibly BEFORE a later field name has been looked up, so it says nothing about the names
     raise PyRaise(I.make_exception(ExternalRef("TypeError" if d == 2 else "ValueError"), []))
 
 
